@@ -630,7 +630,7 @@ impl<'a> Access<'a> for IntVectorMapper<'a> {
 #[cfg(not(target_family = "wasm"))]
 impl<'a> MemoryMapped<'a> for IntVectorMapper<'a> {
     fn new(map: &'a MemoryMap, offset: usize) -> io::Result<Self> {
-        if offset + 1 >= map.len() {
+        if offset >= map.len() || offset + 1 >= map.len() {
             return Err(Error::new(ErrorKind::UnexpectedEof, "The starting offset is out of range"));
         }
         let slice: &[u64] = map.as_ref();
